@@ -487,8 +487,25 @@ impl<'a> Evaluator<'a> {
                             let mut rest = t.as_str();
                             let mut pos = 1;
                             let mut ok = true;
-                            while let Some(i) = rest.find('{') {
+                            loop {
+                                // next `{` or `}`
+                                let i = match rest.find(|c| c == '{' || c == '}') { Some(i) => i, None => break };
                                 out.push_str(&rest[..i]);
+                                let two = &rest[i..];
+                                if two.starts_with("{{") {
+                                    out.push('{');
+                                    rest = &rest[i + 2..];
+                                    continue;
+                                }
+                                if two.starts_with("}}") {
+                                    out.push('}');
+                                    rest = &rest[i + 2..];
+                                    continue;
+                                }
+                                if two.starts_with('}') {
+                                    ok = false;
+                                    break;
+                                }
                                 let j = match rest[i..].find('}') { Some(j) => i + j, None => { ok = false; break } };
                                 let inner = &rest[i + 1..j];
                                 let v = if inner.is_empty() {
